@@ -154,8 +154,110 @@ func runC29(c *Ctx) {
 				_ = errV
 				c.check(!cont, "C29.map-verify", "a failed proof ends verification", vcs[0].Pos(), "loop continues only on success", "the loop continues although a proof failed")
 			}
+			// the loop is left towards success only when the digest list is exhausted (no break)
+			if h := loopHeaderOf(vcs[0].Instr.Block()); h != nil {
+				body := loopBody(h)
+				for b := range body {
+					if b == h {
+						continue
+					}
+					for _, sc := range b.Succs {
+						if body[sc] {
+							continue
+						}
+						okExit := true
+						for _, rs := range returnSites(mv) {
+							if (rs.Ret.Block() == sc || blockReaches(sc, rs.Ret.Block(), nil)) && isNilConst(rs.Results[0]) {
+								okExit = false
+							}
+						}
+						c.check(okExit, "C29.map-verify", "the verification loop is left early only with an error", b.Instrs[len(b.Instrs)-1].Pos(), "early exits carry an error", "the loop over the network types is left before the end and verification succeeds: the remaining network types' proofs are never verified")
+					}
+				}
+			}
 			_, a := callArgs(vcs[0].Common())
 			c.check(strings.HasSuffix(render(a[0]), ".Hash()") && strings.Contains(render(a[0]), ".NewDecision($0,") && strings.Contains(render(a[0]), ".NetworkTypeSectionHash()"), "C29.map-verify", "proof verified over the decision built from the block's digest entry", vcs[0].Pos(), render(a[0]), "verified over "+render(a[0]))
+		}
+	}
+	// ---- the snapshot of a block's contexts is never written through a later block's map
+	if cp := c.mustFn("btp", "proofContextMap", "copy"); cp != nil {
+		n := 0
+		for _, st := range fieldStores([]*ssa.Function{cp}, "proofContextMap", "pcMap") {
+			n++
+			_, fresh := st.Store.Val.(*ssa.MakeMap)
+			c.check(fresh, "C29.context-map-copy", "copy() gives the new map its own table", st.Store.Pos(), "make(map)", "the copy shares "+render(st.Store.Val)+" with the original: Update writes the next block's contexts into the map the previous block's votes are verified against")
+		}
+		if n == 0 {
+			c.undecided("C29.context-map-copy", "proofContextMap.copy", cp.Pos(), "no store to pcMap")
+		}
+	}
+	if up := c.mustFn("btp", "proofContextMap", "Update"); up != nil {
+		for _, b := range up.Blocks {
+			for _, in := range b.Instrs {
+				var m ssa.Value
+				switch x := in.(type) {
+				case *ssa.MapUpdate:
+					m = x.Map
+				case *ssa.Call:
+					if calleeName(x.Common()) == "builtin:delete" {
+						m = x.Call.Args[0]
+					}
+				}
+				if m == nil {
+					continue
+				}
+				c.check(!strings.HasPrefix(render(m), "$r."), "C29.context-map-copy", "Update writes only the copy", in.Pos(), render(m), "Update writes the receiver's own table "+render(m))
+			}
+		}
+	}
+	// ---- a validator without a key owns no address: its slot is nil, never a neighbour's address
+	if nc := c.mustFn(pkg, "", "newSecp256k1ProofContext"); nc != nil {
+		n := 0
+		for _, cs := range c.calls(nc, byCallee("builtin:append")) {
+			_, a := callArgs(cs.Common())
+			els, ok := varargElems(a[len(a)-1])
+			if !ok {
+				continue
+			}
+			for _, el := range els {
+				// a value merged at a loop header is carried over from the previous validator
+				var carried func(v ssa.Value, seen map[ssa.Value]bool) bool
+				carried = func(v ssa.Value, seen map[ssa.Value]bool) bool {
+					phi, ok := v.(*ssa.Phi)
+					if !ok || seen[v] {
+						return false
+					}
+					seen[v] = true
+					for _, p := range phi.Block().Preds {
+						if phi.Block().Dominates(p) {
+							return true
+						}
+					}
+					for _, e := range phi.Edges {
+						if carried(e, seen) {
+							return true
+						}
+					}
+					return false
+				}
+				if carried(el, map[ssa.Value]bool{}) {
+					n++
+					c.violate("C29.context-build", "validator slot is computed for this validator alone", cs.Pos(), "the slot value "+render(el)+" is carried over from the previous loop iteration: a validator without a key inherits the previous validator's address, which then counts at two indices")
+					continue
+				}
+				for _, fl := range flowsOf(el, nil) {
+					n++
+					r := render(fl.Src)
+					if isNilConst(fl.Src) {
+						c.okTrivial("C29.context-build", "slot of a validator without a key is nil", cs.Pos(), "nil")
+						continue
+					}
+					c.check(strings.Contains(r, ".AddressFromPubKey(") && strings.HasSuffix(r, ")#0") && !strings.HasPrefix(r, "phi("), "C29.context-build", "validator slot is the address of this validator's own key", cs.Pos(), r, "slot value is "+r+": a validator without a key inherits another validator's address, which then counts at two indices")
+				}
+			}
+		}
+		if n < 2 {
+			c.undecided("C29.context-build", "newSecp256k1ProofContext", nc.Pos(), fmt.Sprintf("expected ≥2 flows into Validators, found %d", n))
 		}
 	}
 	_ = token.NoPos
